@@ -7,6 +7,9 @@ CONSTANTS
   FixSessionWait = FALSE
   FixRefreshWait = FALSE
   FixProcQuit = FALSE
+  FixUpstreamQuitFirst = FALSE
+  FixSignalBeforeWait = FALSE
+  ClientQCap = 4
   NReq = 3
   SessQCap = 1
   MaxRounds = 2
